@@ -12,6 +12,39 @@ use vkit::{Args, Report, Rng};
 
 pub const CHOICE_BUDGET: usize = 160;
 
+thread_local! {
+    /// (runner, current scenario, report path) for the emergency exit out of a
+    /// synchronous wait that can never return
+    static EMERGENCY: std::cell::Cell<(usize, usize, usize)> = std::cell::Cell::new((0, 0, 0));
+}
+
+/// Called (instead of returning) when the guest sits in a synchronous
+/// `waitable-set.wait` that can never be answered: record the host's trap as
+/// this execution's finding, write the report collected so far and leave.
+pub fn emergency_finish() -> ! {
+    let _g = crate::alloc::host_mode();
+    let (r, sc, out) = EMERGENCY.with(|e| e.get());
+    if r == 0 || sc == 0 || out == 0 {
+        crate::crash::emergency(1001);
+    }
+    // SAFETY: set by `main_for`/`execute` from live objects; this path never returns
+    let runner: &mut Runner = unsafe { &mut *(r as *mut Runner) };
+    let sc: &Scenario = unsafe { &*(sc as *const Scenario) };
+    let out_path: &String = unsafe { &*(out as *const String) };
+    let taken = sched::end();
+    let host = host::take();
+    let end = RunEnd::default();
+    let cx = Ctx { scenario: sc.name, may_stick: sc.cfg.may_stick, leak: None, props: sc.props };
+    let findings = monitors::check(&host, &end, &cx);
+    let eo = ExecOut { vector: sched::vector(&taken), labels: taken.iter().map(|t| t.label).collect(), fanout: taken.iter().map(|t| t.n).collect(), trace_hash: crate::trace::hash(&host), findings, host, end, clamped: 0 };
+    runner.account(sc, eo);
+    runner.report.inconclusive("a shard ended early: the guest was left in a synchronous wait that can never return (recorded as a finding)");
+    let stats = std::mem::replace(&mut runner.stats, Stats::new());
+    let report = std::mem::take(&mut runner.report);
+    Runner { prop: runner.prop, report, stats, reuse: runner.reuse, deadline: None }.finish(out_path);
+    std::process::exit(0)
+}
+
 pub struct ExecOut {
     pub vector: Vec<u32>,
     pub labels: Vec<&'static str>,
@@ -31,6 +64,14 @@ pub fn execute(sc: &Scenario, prefix: Vec<u32>, zero_until: usize, tail_seed: u6
     crate::machine::reset_counters();
     crate::payload::reset_defaults();
     crate::crash::begin(sc.name);
+    EMERGENCY.with(|e| {
+        let mut v = e.get();
+        v.1 = sc as *const Scenario as usize;
+        e.set(v);
+    });
+    if announce() {
+        eprintln!("RT-HOST-EXEC {}", json!({"scenario": sc.name, "prefix": prefix, "zero_until": zero_until, "tail_seed": tail_seed.to_string(), "reuse_handles": reuse}));
+    }
     sched::begin(prefix, zero_until, tail_seed, CHOICE_BUDGET);
     let base = crate::alloc::live();
     let mut end = RunEnd::default();
@@ -56,6 +97,14 @@ pub fn execute(sc: &Scenario, prefix: Vec<u32>, zero_until: usize, tail_seed: u6
     let cx = Ctx { scenario: sc.name, may_stick: sc.cfg.may_stick, leak, props: sc.props };
     let findings = monitors::check(&host, &end, &cx);
     ExecOut { vector: sched::vector(&taken), labels: taken.iter().map(|t| t.label).collect(), fanout: taken.iter().map(|t| t.n).collect(), trace_hash: crate::trace::hash(&host), findings, host, end, clamped }
+}
+
+/// Announce every execution on stderr (Miri / valgrind shards: the last line
+/// before a tool report identifies the failing execution).
+pub fn announce() -> bool {
+    use std::sync::OnceLock;
+    static A: OnceLock<bool> = OnceLock::new();
+    *A.get_or_init(|| std::env::var("RT_HOST_ANNOUNCE").is_ok())
 }
 
 pub struct Stats {
@@ -88,6 +137,7 @@ pub struct Runner {
     pub report: Report,
     pub stats: Stats,
     pub reuse: bool,
+    pub deadline: Option<std::time::Instant>,
 }
 
 fn replay_json(sc: &Scenario, out: &ExecOut, reuse: bool) -> Value {
@@ -123,7 +173,7 @@ pub fn features() -> Vec<&'static str> {
 
 impl Runner {
     pub fn new(prop: &'static str, rule: &str) -> Runner {
-        Runner { prop, report: Report::new(rule), stats: Stats::new(), reuse: false }
+        Runner { prop, report: Report::new(rule), stats: Stats::new(), reuse: false, deadline: None }
     }
 
     /// Account for one execution; returns true if it produced a violation of
@@ -232,8 +282,19 @@ impl Runner {
 
     pub fn random(&mut self, sc: &Scenario, count: u64, rng: &mut Rng) {
         for _ in 0..count {
+            if self.out_of_time() {
+                self.report.count("random_runs_cut_by_time_budget");
+                return;
+            }
             let s = rng.next();
             self.execute_confirmed(sc, vec![], 0, s);
+        }
+    }
+
+    pub fn out_of_time(&self) -> bool {
+        match self.deadline {
+            Some(d) => std::time::Instant::now() >= d,
+            None => false,
         }
     }
 
@@ -293,13 +354,19 @@ pub fn main_for(prop: &'static str, rule: &str) {
         let v: Value = serde_json::from_str(&txt).expect("parse replay file");
         let r = v.get("replay").unwrap_or(&v);
         let name = r["scenario"].as_str().unwrap_or("");
-        let vector: Vec<u32> = r["vector"].as_array().map(|a| a.iter().map(|x| x.as_u64().unwrap_or(0) as u32).collect()).unwrap_or_default();
+        let arr = |k: &str| -> Vec<u32> { r[k].as_array().map(|a| a.iter().map(|x| x.as_u64().unwrap_or(0) as u32).collect()).unwrap_or_default() };
+        let by_seed = r.get("tail_seed").is_some();
+        let vector: Vec<u32> = if by_seed { arr("prefix") } else { arr("vector") };
+        let zero_until = r["zero_until"].as_u64().unwrap_or(0) as usize;
+        let tail_seed: u64 = r["tail_seed"].as_str().and_then(|s| s.parse().ok()).unwrap_or(0);
         let reuse = r["reuse_handles"].as_bool().unwrap_or(false);
-        let mut runner = Runner::new(prop, rule);
+        let runner: &'static mut Runner = Box::leak(Box::new(Runner::new(prop, rule)));
+        let out_path: &'static String = Box::leak(Box::new(args.out()));
+        EMERGENCY.with(|e| e.set((runner as *mut Runner as usize, 0, out_path as *const String as usize)));
         runner.reuse = reuse;
         match all.iter().find(|s| s.name == name) {
             Some(sc) => {
-                let out = execute(sc, vector, 0, 0, reuse);
+                let out = execute(sc, vector, zero_until, tail_seed, reuse);
                 if args.get("print").is_some() {
                     for l in crate::trace::text(&out.host) {
                         eprintln!("{l}");
@@ -312,7 +379,9 @@ pub fn main_for(prop: &'static str, rule: &str) {
             }
             None => runner.report.inconclusive(&format!("replay names unknown scenario `{name}`")),
         }
-        runner.finish(&args.out());
+        let stats = std::mem::replace(&mut runner.stats, Stats::new());
+        let report = std::mem::take(&mut runner.report);
+        Runner { prop, report, stats, reuse, deadline: None }.finish(out_path);
         return;
     }
 
@@ -326,8 +395,16 @@ pub fn main_for(prop: &'static str, rule: &str) {
         random: args.u64("random", if thorough { 200_000 } else { 4_000 }),
     };
     let only = args.get("scenario").map(|s| s.to_string());
-    let mut runner = Runner::new(prop, rule);
+    let out_path: &'static String = Box::leak(Box::new(args.out()));
+    let leak_clean = args.get("leak-clean").is_some();
+    let only_leaky = args.get("only-leaky").is_some();
+    let runner: &'static mut Runner = Box::leak(Box::new(Runner::new(prop, rule)));
+    EMERGENCY.with(|e| e.set((runner as *mut Runner as usize, 0, out_path as *const String as usize)));
     runner.reuse = args.get("reuse").is_some();
+    let budget = args.u64("time-budget-s", 0);
+    if budget > 0 {
+        runner.deadline = Some(std::time::Instant::now() + std::time::Duration::from_secs(budget));
+    }
     let mut rng = Rng::new(seed.wrapping_mul(0x9E37_79B9).wrapping_add(shard * 7919 + 13));
     for (i, sc) in mine.iter().enumerate() {
         if sc.thorough_only && !thorough {
@@ -338,14 +415,46 @@ pub fn main_for(prop: &'static str, rule: &str) {
                 continue;
             }
         }
+        // shards whose process-level leak check is on (Miri) skip executions
+        // that legitimately leave a deferred write behind
+        let leaky = sc.cfg.cancel_inject || sc.cfg.may_stick;
+        if (leak_clean && leaky) || (only_leaky && !leaky) {
+            continue;
+        }
         // exhaustive enumeration is split by scenario, random runs by seed
         if plan.max_exhaustive > 0 && (i as u64) % of == shard {
             runner.exhaustive(sc, plan.depth, plan.max_exhaustive, seed);
         }
         let per = plan.random / of;
-        if per > 0 {
+        if per > 0 && budget == 0 {
             runner.random(sc, per, &mut rng);
         }
     }
-    runner.finish(&args.out());
+    if budget > 0 {
+        // with a time budget: round-robin over the scenarios until time or count runs out
+        let sel: Vec<&&Scenario> = mine
+            .iter()
+            .filter(|sc| !(sc.thorough_only && !thorough))
+            .filter(|sc| only.as_ref().map_or(true, |o| sc.name == o))
+            .filter(|sc| {
+                let leaky = sc.cfg.cancel_inject || sc.cfg.may_stick;
+                !((leak_clean && leaky) || (only_leaky && !leaky))
+            })
+            .collect();
+        let per = plan.random / of;
+        let start = rng.usize(sel.len().max(1));
+        'outer: for round in 0..per {
+            for k in 0..sel.len() {
+                if runner.out_of_time() {
+                    runner.report.count("random_runs_cut_by_time_budget");
+                    break 'outer;
+                }
+                let sc = sel[(start + k + round as usize) % sel.len()];
+                runner.random(sc, 1, &mut rng);
+            }
+        }
+    }
+    let stats = std::mem::replace(&mut runner.stats, Stats::new());
+    let report = std::mem::take(&mut runner.report);
+    Runner { prop, report, stats, reuse: runner.reuse, deadline: None }.finish(out_path);
 }
